@@ -80,6 +80,13 @@ inductive SelfCount
   | byTest           -- `sum(... for reg in <scope>)`: the drawn region is asked about its own sample
   deriving DecidableEq, Repr
 
+/-- which test a composed region (`IntersectionRegion` / `UnionRegion` / `DifferenceRegion`) answers
+    `_trueContainsPoint` with -/
+inductive ComposedMembership
+  | inherited    -- no own definition: `Region._trueContainsPoint = containsPoint`, which tests the operands' *footprints*
+  | structural   -- `all` / `any` / `A and not B` over the operands' `_trueContainsPoint`
+  deriving DecidableEq, Repr
+
 /-- data regenerated from the source by `tools/translate/regionsampling.py` -/
 structure SamplerCfg where
   /-- `r.dimensionality is None or r.dimensionality <op> min_dim` in `IntersectionRegion.genericSampler` -/
@@ -95,6 +102,10 @@ structure SamplerCfg where
   unionSelf : SelfCount
   /-- `DifferenceRegion.genericSampler` rejects exactly when `regionB._trueContainsPoint(point)` -/
   diffRejectsInB : Bool
+  /-- `IntersectionRegion._trueContainsPoint` / `UnionRegion._trueContainsPoint` / `DifferenceRegion._trueContainsPoint` -/
+  interTrue : ComposedMembership := .structural
+  unionTrue : ComposedMembership := .structural
+  diffTrue : ComposedMembership := .structural
   deriving DecidableEq, Repr
 
 /-- by which test the sampler installed by `PointSetRegion.intersect` filters its candidates -/
@@ -113,7 +124,8 @@ inductive BallFallback
 /-- the configuration the theorems are proved for -/
 def SamplerCfg.reference : SamplerCfg :=
   { interDimOp := .le, interChecksAll := true, unionDimOp := .eq, unionWeight := .size,
-    unionCount := .allRegs, unionAccept := .invCount, unionSelf := .byConstruction, diffRejectsInB := true }
+    unionCount := .allRegs, unionAccept := .invCount, unionSelf := .byConstruction, diffRejectsInB := true,
+    interTrue := .structural, unionTrue := .structural, diffTrue := .structural }
 
 /-- A region as seen by the generic samplers. -/
 structure Operand (α : Type) where
@@ -283,9 +295,15 @@ inductive Instr (α : Type)
 
 def undefinedOperand : Operand α := { sampler := none, dim := none, size := none, contains := fun _ => false }
 
-/-- a composed region: `_trueContainsPoint` is the default (`containsPoint`), which tests the operands' footprints -/
-def composed (sampler : Option (SubPMF α)) (c : α → Bool) : Operand α :=
-  { sampler := sampler, dim := none, size := none, contains := c, containsPt := c, footprint := c }
+/-- a composed region: `containsPoint` (and the footprint's) is `c`, which tests the operands' footprints;
+    `_trueContainsPoint` is `ct` (structural over the operands' `_trueContainsPoint`) when the class defines it,
+    and the inherited default `containsPoint` otherwise -/
+def composed (how : ComposedMembership) (sampler : Option (SubPMF α)) (ct c : α → Bool) : Operand α :=
+  { sampler := sampler, dim := none, size := none,
+    contains := match how with
+      | .structural => ct
+      | .inherited => c,
+    containsPt := c, footprint := c }
 
 def evalInstr [DecidableEq α] (cfg : SamplerCfg) (bf : BallFilter) (fb : BallFallback) (env : List (Operand α)) : Instr α → Operand α
   | .points atoms member =>
@@ -296,15 +314,17 @@ def evalInstr [DecidableEq α] (cfg : SamplerCfg) (bf : BallFilter) (fb : BallFa
       containsPt := fun x => decide (x ∈ memberPt), footprint := fun x => decide (x ∈ memberFp) }
   | .inter args =>
     let ops := args.map fun i => env.getD i undefinedOperand
-    composed (interSampler cfg ops) fun x => ops.all (·.footprint x)
+    composed cfg.interTrue (interSampler cfg ops) (fun x => ops.all (·.contains x)) fun x => ops.all (·.footprint x)
   | .union args =>
     let ops := args.map fun i => env.getD i undefinedOperand
     -- two positions denote the same region object iff they refer to the same instruction
-    composed (unionSampler cfg ops fun i j => args[i]? == args[j]?) fun x => ops.any (·.containsPt x)
+    composed cfg.unionTrue (unionSampler cfg ops fun i j => args[i]? == args[j]?) (fun x => ops.any (·.contains x))
+      fun x => ops.any (·.containsPt x)
   | .diff a b =>
     let oa := env.getD a undefinedOperand
     let ob := env.getD b undefinedOperand
-    composed (diffSampler cfg oa ob) fun x => oa.footprint x && !ob.footprint x
+    composed cfg.diffTrue (diffSampler cfg oa ob) (fun x => oa.contains x && !ob.contains x)
+      fun x => oa.footprint x && !ob.footprint x
   | .ball pts inBall other =>
     let op := env.getD pts undefinedOperand
     let oo := env.getD other undefinedOperand
@@ -313,11 +333,25 @@ def evalInstr [DecidableEq α] (cfg : SamplerCfg) (bf : BallFilter) (fb : BallFa
       | .containsPoint => oo.containsPt
       | .trueContainsPoint => oo.contains
       | .none => fun _ => true
-    composed (some (ballSamplerOpt fb atoms (inBall.map fun l x => decide (x ∈ l)) test))
-      fun x => op.footprint x && oo.footprint x
+    -- the result of `PointSetRegion.intersect` is an `IntersectionRegion(self, other, sampler=…)`
+    composed cfg.interTrue (some (ballSamplerOpt fb atoms (inBall.map fun l x => decide (x ∈ l)) test))
+      (fun x => op.contains x && oo.contains x) fun x => op.footprint x && oo.footprint x
 
 def evalProgram [DecidableEq α] (cfg : SamplerCfg) (bf : BallFilter) (fb : BallFallback) (prog : List (Instr α)) : List (Operand α) :=
   prog.foldl (fun env i => env ++ [evalInstr cfg bf fb env i]) []
+
+/-- the set a region program denotes: membership decided from the *leaves'* `_trueContainsPoint` by the set operations
+    (`envD` = the denotations of the earlier instructions; a dangling reference denotes the empty set) -/
+def denoteInstr [DecidableEq α] (envD : List (α → Bool)) : Instr α → α → Bool
+  | .points _ member => fun x => decide (x ∈ member)
+  | .opaque _ _ member _ _ => fun x => decide (x ∈ member)
+  | .inter args => fun x => args.all fun i => envD.getD i (fun _ => false) x
+  | .union args => fun x => args.any fun i => envD.getD i (fun _ => false) x
+  | .diff a b => fun x => envD.getD a (fun _ => false) x && !envD.getD b (fun _ => false) x
+  | .ball pts _ other => fun x => envD.getD pts (fun _ => false) x && envD.getD other (fun _ => false) x
+
+def denoteProgram [DecidableEq α] (prog : List (Instr α)) : List (α → Bool) :=
+  prog.foldl (fun envD i => envD ++ [denoteInstr envD i]) []
 
 /-- merge equal outcomes (for printing) -/
 def collect [DecidableEq α] (p : SubPMF α) : SubPMF α :=
